@@ -291,6 +291,192 @@ theorem limAll (env : Env) (hc : CategoryTotal env) : ∀ f, LimAll env f := by
             rw [writeInline_term env k id attr args w sc rp named sc1 hr]
             exact term_tail_dirty env k (dAll k) id attr args w l _ _ (Ext.congr (b := sc1) h1 rfl rfl)
         all_goals cases hs
-    all_goals sorry
+    · -- evalValue / resolveInline
+      intro e sc lg hg hs fuel' hf
+      obtain ⟨k, rfl⟩ : ∃ k, fuel' = k + 1 := ⟨fuel' - 1, by omega⟩
+      have hw : ∀ e : Inline Bytes,
+          (match evalInline (ctxOf env sc) f e sc.placeables sc.errors with
+            | .val s count' log' => Out.val (Value.str s) count' log'
+            | .limit l => .limit l
+            | .panic m => .panic m
+            | .fuel => .fuel) = .limit lg →
+          DirtyOk lg (match writeInline env k e [] sc with
+              | .ok (w, sc1) => RR.ok (Value.str w, sc1)
+              | .panic m => .panic m
+              | .fuel => .fuel) := by
+        intro e hs
+        split at hs
+        · cases hs
+        · rename_i l hI
+          simp only [Out.limit.injEq] at hs
+          subst hs
+          have h1 := iInl e sc l hg hI k (by omega) []
+          revert h1
+          generalize writeInline env k e [] sc = r
+          intro h1
+          match r, h1 with
+          | .fuel, _ => trivial
+          | .ok (w1, sc1), h1 => exact h1
+        all_goals cases hs
+      match e with
+      | .str s => simp [evalValue] at hs
+      | .num s => simp [evalValue] at hs
+      | .var id =>
+        simp only [evalValue] at hs
+        (repeat' split at hs) <;> cases hs
+      | .placeable e => simp only [evalValue] at hs; simp only [resolveInline]; exact hw _ hs
+      | .msg id attr => simp only [evalValue] at hs; simp only [resolveInline]; exact hw _ hs
+      | .term id attr args => simp only [evalValue] at hs; simp only [resolveInline]; exact hw _ hs
+      | .fn id pos named =>
+        simp only [evalValue] at hs
+        split at hs
+        · (repeat' split at hs) <;> cases hs
+        · rename_i l hA
+          simp only [Out.limit.injEq] at hs
+          subst hs
+          have h1 := iArgs _ sc l hg hA k (by omega)
+          simp only [resolveInline]
+          revert h1
+          generalize getArguments env k (some (pos, named)) sc = r
+          intro h1
+          match r, h1 with
+          | .fuel, _ => trivial
+          | .ok ((rp, rn), sc1), h1 =>
+            have h1 : Ext l sc1 := h1
+            dsimp only
+            split
+            · exact h1
+            · exact h1.addError _ (by simp)
+        all_goals cases hs
+    · -- evalArgs / getArguments
+      intro a sc lg hg hs fuel' hf
+      obtain ⟨k, rfl⟩ : ∃ k, fuel' = k + 1 := ⟨fuel' - 1, by omega⟩
+      match a with
+      | .none => simp [evalArgs] at hs
+      | some (pos, named) =>
+        simp only [evalArgs] at hs
+        simp only [getArguments]
+        split at hs
+        · rename_i vs c1 l1 hL
+          obtain ⟨hb1, hML⟩ := vList pos sc vs c1 l1 hg hL
+          rw [hML k (by omega)]
+          dsimp only
+          split at hs
+          · cases hs
+          · rename_i l hN
+            simp only [Out.limit.injEq] at hs
+            subst hs
+            have h1 := iNamed named _ l (upd_good hg l1 hb1) hN k (by omega)
+            revert h1
+            generalize resolveNamed env k named _ = r
+            intro h1
+            match r, h1 with
+            | .fuel, _ => trivial
+            | .ok (ns, sc2), h1 => exact h1
+          all_goals cases hs
+        · rename_i l hL
+          simp only [Out.limit.injEq] at hs
+          subst hs
+          have h1 := iList pos sc l hg hL k (by omega)
+          revert h1
+          generalize resolveList env k pos sc = r
+          intro h1
+          match r, h1 with
+          | .fuel, _ => trivial
+          | .ok (vs, sc1), h1 =>
+            have h1 : Ext l sc1 := h1
+            dsimp only
+            have h2 := (dAll k).2.2.2.2.2.2.2.2.2 named l sc1 h1
+            revert h2
+            generalize resolveNamed env k named sc1 = r2
+            intro h2
+            match r2, h2 with
+            | .fuel, _ => trivial
+            | .ok (ns, sc2), h2 => exact h2
+        all_goals cases hs
+    · -- evalList / resolveList
+      intro es sc lg hg hs fuel' hf
+      obtain ⟨k, rfl⟩ : ∃ k, fuel' = k + 1 := ⟨fuel' - 1, by omega⟩
+      match es with
+      | [] => simp [evalList] at hs
+      | e :: es =>
+        simp only [evalList] at hs
+        simp only [resolveList]
+        split at hs
+        · rename_i v1 c1 l1 hV
+          obtain ⟨hb1, hMV⟩ := vVal e sc v1 c1 l1 hg hV
+          rw [hMV k (by omega)]
+          dsimp only
+          split at hs
+          · cases hs
+          · have h1 := iList es _ lg (upd_good hg l1 hb1) hs k (by omega)
+            revert h1
+            generalize resolveList env k es _ = r
+            intro h1
+            match r, h1 with
+            | .fuel, _ => trivial
+            | .ok (ns, sc2), h1 => exact h1
+        · rename_i l hV
+          simp only [Out.limit.injEq] at hs
+          subst hs
+          have h1 := iVal e sc l hg hV k (by omega)
+          revert h1
+          generalize resolveInline env k e sc = r
+          intro h1
+          match r, h1 with
+          | .fuel, _ => trivial
+          | .ok (v, sc1), h1 =>
+            have h1 : Ext l sc1 := h1
+            dsimp only
+            have h2 := (dAll k).2.2.2.2.2.2.2.2.1 es l sc1 h1
+            revert h2
+            generalize resolveList env k es sc1 = r2
+            intro h2
+            match r2, h2 with
+            | .fuel, _ => trivial
+            | .ok (ns, sc2), h2 => exact h2
+        all_goals cases hs
+    · -- evalNamed / resolveNamed
+      intro es sc lg hg hs fuel' hf
+      obtain ⟨k, rfl⟩ : ∃ k, fuel' = k + 1 := ⟨fuel' - 1, by omega⟩
+      match es with
+      | [] => simp [evalNamed] at hs
+      | (n, e) :: es =>
+        simp only [evalNamed] at hs
+        simp only [resolveNamed]
+        split at hs
+        · rename_i v1 c1 l1 hV
+          obtain ⟨hb1, hMV⟩ := vVal e sc v1 c1 l1 hg hV
+          rw [hMV k (by omega)]
+          dsimp only
+          split at hs
+          · cases hs
+          · have h1 := iNamed es _ lg (upd_good hg l1 hb1) hs k (by omega)
+            revert h1
+            generalize resolveNamed env k es _ = r
+            intro h1
+            match r, h1 with
+            | .fuel, _ => trivial
+            | .ok (ns, sc2), h1 => exact h1
+        · rename_i l hV
+          simp only [Out.limit.injEq] at hs
+          subst hs
+          have h1 := iVal e sc l hg hV k (by omega)
+          revert h1
+          generalize resolveInline env k e sc = r
+          intro h1
+          match r, h1 with
+          | .fuel, _ => trivial
+          | .ok (v, sc1), h1 =>
+            have h1 : Ext l sc1 := h1
+            dsimp only
+            have h2 := (dAll k).2.2.2.2.2.2.2.2.2 es l sc1 h1
+            revert h2
+            generalize resolveNamed env k es sc1 = r2
+            intro h2
+            match r2, h2 with
+            | .fuel, _ => trivial
+            | .ok (ns, sc2), h2 => exact h2
+        all_goals cases hs
 
 end FluentProofs.ResolverRefine
